@@ -128,6 +128,11 @@ def runCase : CaseFn := fun c => Id.run do
       if obs == "ok" then d := initCrash 5
       log := Log.init
       continue
+    if ws.head? == some "initagain" then
+      -- the restart was killed as well: still one of the `FirstInit` states, all of which reopen to `init`
+      -- (C08_first_init); a completed restart has initialised both stores
+      if obs == "ok" then d := initCrash 5
+      continue
     if ws == ["dump"] then
       match parseDump obs with
       | none => out := out.push s!"ORACLE-FAIL {pid} case {c.num} line {ln}: store unusable: {obs}"
